@@ -240,6 +240,7 @@ var allOps32 = []string{
 	"NextValue", "PreviousValue", "NextAbsentValue", "PreviousAbsentValue", "ToArray", "ChecksumEq", "ChecksumRT",
 	"Ser", "Load", "WriteFail", "Freeze", "FrozenRT", "LoadLegal", "DetachAll", "Scribble",
 	"Ser64", "Load64",
+	"ItNew", "ItTake", "ItPeek", "ItAdvance", "IterCb", "Ranges",
 }
 
 func profile(name string) Profile {
@@ -325,6 +326,20 @@ func profile(name string) Profile {
 		set(3, "Add", "Remove", "AddRange", "RemoveRange", "Flip", "AddMany")
 		set(2, "RunOptimize", "Clone", "Or", "AndNot", "Xor")
 		set(5, "Build")
+	case "iter": // C04
+		set(8, "ItNew")
+		set(16, "ItTake")
+		set(6, "ItPeek", "ItAdvance")
+		set(6, "IterCb", "Ranges")
+		set(2, "AddRange", "RemoveRange", "Flip", "Add", "Remove", "RunOptimize", "Or", "AndNot", "Xor")
+		set(4, "Build")
+	case "iter64": // iterator clauses of C17
+		set(8, "ItNew")
+		set(16, "ItTake")
+		set(6, "ItPeek", "ItAdvance")
+		set(4, "IterCb")
+		set(2, "AddRange", "RemoveRange", "Flip", "Add", "Remove", "RunOptimize", "Or", "AndNot", "Xor")
+		set(4, "Build")
 	case "legal": // C06 read direction: every legal encoder choice
 		set(12, "LoadLegal")
 		set(3, alg...)
@@ -614,6 +629,50 @@ func (g *Gen) next(e *Exec) Call {
 			c.W = 2 + r.Intn(2)
 		}
 	case "DetachAll", "Scribble":
+	case "ItNew":
+		c.A, c.X = 1+r.Intn(3), g.slot()
+		c.Rcp = pick(r, []string{"fwd", "fwd", "rev", "many", "unset"})
+		if g.u.Bits == 64 && c.Rcp == "unset" {
+			c.Rcp = "fwd"
+		}
+		c.J = r.Intn(16)
+		if c.Rcp == "unset" {
+			c.C0, c.C1 = g.cellRange()
+			if c.C0 > c.C1 {
+				c.C0, c.C1 = c.C1, c.C0
+			}
+		}
+	case "ItTake", "ItPeek":
+		c.A = 1 + r.Intn(3)
+	case "ItAdvance":
+		c.A = 1 + r.Intn(3)
+		c.C0, c.Side = 1+r.Intn(g.u.ncell()), r.Intn(2)
+	case "IterCb":
+		c.X = g.slot()
+		c.Rcp = pick(r, []string{"Iterate", "Values", "Backward", "Unset"})
+		c.C0 = 1 + r.Intn(g.u.ncell())
+		if r.Intn(3) == 0 {
+			c.C0 = g.u.ncell()
+			if c.Rcp == "Backward" {
+				c.C0 = 1
+			}
+		}
+		if c.Rcp == "Unset" {
+			// window = cells C1..end, kept below 2^23 integers
+			c.C1 = g.u.ncell()
+			for c.C1 > 1 && g.u.Top-g.u.CellLo[c.C1-2] < 1<<23 && r.Intn(3) != 0 {
+				c.C1--
+			}
+			if g.u.Top-g.u.CellLo[c.C1-1] >= 1<<23 {
+				return g.next(e)
+			}
+			if c.C0 < c.C1 {
+				c.C0 = c.C1
+			}
+		}
+	case "Ranges":
+		c.X = g.slot()
+		c.V = pick(r, []int{0, 0, 1, 2, 3, 7})
 	case "Ser64":
 		c.X, c.V = g.slot(), r.Intn(4)
 	case "Load64":
